@@ -743,6 +743,17 @@ impl NHistory {
                     if read.as_l().and_then(|o| o.first()).and_then(|t| t.as_u64()) != Some(0) && !self.res.panicked {
                         self.violate("C16", format!("a connect token written by ConnectToken::write does not read back: {}", read.to_text().chars().take(80).collect::<String>()));
                     }
+                    // ... and to the values it was generated from: client id, protocol id, timeout and the server addresses in order
+                    let field = |i: usize| read.as_l().and_then(|o| o.get(1)).and_then(|t| t.as_l()).and_then(|p| p.first()).and_then(|t| t.as_l()).and_then(|f| f.get(i)).cloned();
+                    if let (Some(slots), Some(addrs)) = (field(6), v.get(7).and_then(|t| t.as_l())) {
+                        let mut want: Vec<Tree> = addrs.iter().map(|a| topt(Some(a.clone()))).collect();
+                        while want.len() < 32 {
+                            want.push(topt(None));
+                        }
+                        if slots != l(want) || field(0) != v.get(5).cloned() || field(2) != v.get(3).cloned() || field(10) != v.get(6).cloned() {
+                            self.violate("C16", format!("a connect token reads back with other values than it was generated from: addresses {}", slots.to_text().chars().take(160).collect::<String>()));
+                        }
+                    }
                 }
                 if self.res.panicked {
                     self.violate("C07", "generating, writing or reading back a connect token panicked".to_string());
@@ -797,7 +808,13 @@ impl NHistory {
             105 | 106 => {
                 let k = u(1).unwrap_or(0);
                 let payload = v.get(2).and_then(|t| t.as_b()).map(|x| x.to_vec());
+                let was_connected = self.world.clients.get(&k).map(|c| c.verif_state().0 == 3).unwrap_or(false);
                 let obs = self.emit(op);
+                if let (105, true, Some(p), Some(Tree::N(1))) = (code, was_connected && !self.res.panicked, payload.as_ref(), obs.as_l().and_then(|o| o.first())) {
+                    if p.len() <= 1300 {
+                        self.violate("C13", format!("connected client {} refused a payload of {} bytes: {}", k, p.len(), obs.to_text().chars().take(40).collect::<String>()));
+                    }
+                }
                 if let Some([Tree::N(0), Tree::L(ap)]) = obs.as_l() {
                     if let (Some(a), Some(p)) = (ap.first().and_then(parse_addr), ap.get(1).and_then(|t| t.as_b())) {
                         self.log_client_out(k, p.to_vec(), a, if code == 105 { payload } else { None });
@@ -807,7 +824,14 @@ impl NHistory {
             114 => {
                 let payload = v.get(2).and_then(|t| t.as_b()).map(|x| x.to_vec());
                 let id = u(1).unwrap_or(0);
+                let held = self.world.server.as_ref().map(|s| s.verif_clients().iter().any(|c| c.client_id == id)).unwrap_or(false);
                 let obs = self.emit(op);
+                // C13: whatever the message layer may hand down (up to 1300 bytes) is accepted for a connected client
+                if let (true, Some(p), Some(Tree::N(1))) = (held && !self.res.panicked, payload.as_ref(), obs.as_l().and_then(|o| o.first())) {
+                    if p.len() <= 1300 {
+                        self.violate("C13", format!("the server refused a payload of {} bytes for connected client {}: {}", p.len(), id, obs.to_text().chars().take(40).collect::<String>()));
+                    }
+                }
                 if let Some([Tree::N(0), Tree::L(ap)]) = obs.as_l() {
                     if let (Some(a), Some(p)) = (ap.first().and_then(parse_addr), ap.get(1).and_then(|t| t.as_b())) {
                         // C10/C04: a payload for client id goes to the address that id is connected from, and to nobody when it is not connected
